@@ -194,6 +194,32 @@ def gen_format(ctx, n_random: int):
     return out
 
 
+def gen_format_systematic(ctx):
+    """Exhaustive small space of WELL-FORMED templates: every sequence of 1-4 fields over {auto, 0, 1, 2, a} (each
+    optionally with an attribute/index path or a conversion) x 0-3 positional arguments x keyword a present/absent.
+    Seed-independent; sharded with ctx.mine."""
+    import itertools
+
+    names = ["", "0", "1", "2", "a"]
+    suffixes = ["", ".real", "[0]", "!r", ":>4"]
+    out = []
+    idx = 0
+    for n in range(1, 5):
+        for seq in itertools.product(names, repeat=n):
+            for si in range(len(suffixes) if n <= 2 else 1):
+                for npos in range(0, 4):
+                    for with_a in (False, True):
+                        idx += 1
+                        if not ctx.mine(idx):
+                            continue
+                        fields = ["{" + nm + (suffixes[si] if j == 0 else "") + "}" for j, nm in enumerate(seq)]
+                        text = " ".join(fields)
+                        arg = "(1, 2)" if suffixes[si] == "[0]" else "3"
+                        args = [arg] * npos + (["a=" + arg] if with_a else [])
+                        out.append((f"{text!r}.format({', '.join(args)})", "fmt-systematic", text))
+    return out
+
+
 def lint_rule(desc: str):
     for name, rx in LINT_RULES:
         if rx.search(desc):
@@ -328,7 +354,7 @@ def shard(ctx) -> None:
     exprs = [(f"{t} % {a}", feat) for t, a, feat in pct]
     for i in range(0, len(exprs), BATCH):
         check_exprs(ctx, exprs[i : i + BATCH], "percent")
-    fmt = gen_format(ctx, ctx.pick(400, 4000))
+    fmt = gen_format(ctx, ctx.pick(400, 4000)) + gen_format_systematic(ctx)
     exprs = [(call, feat) for call, feat, _ in fmt]
     for i in range(0, len(exprs), BATCH):
         check_exprs(ctx, exprs[i : i + BATCH], "format")
